@@ -11,6 +11,9 @@ per cycle the work (p, j) the doer's recur does to the clock.
           "runs": [{"pre": [p, j], "tock": float | None, "works": [[p, j], ...], "sets": [float | None, ...]}, ...],
           "exact": bool}
 
+"ops" (optional): entry k in {None, "extend", "remove"}: in the recur of cycle k, after the cycle's work moved the
+clock, the doer calls doist.extend([a new doer]) / doist.remove([the doers added so far]).
+
 "sets" (optional): entry k is assigned to doist.tock by the doer in the recur of cycle k, i.e. while the run is
 under way; the oracle always judges a run by the tock the Doist had when do()/ado() was called.
 
@@ -32,7 +35,7 @@ COQ_CASE_TYPE = "RealTime.case"
 COQ_BRANCHES = ("RealTime.case_branches", "RealTime.n_branches")
 SHARD = 150
 RULE = ("sessions of 1-3 Doist(real=True).do() runs (two thirds of the cases) or asyncio.run(doist.ado()) runs (one third; fake loop clock, no backward steps) of 1-12 cycles under a scripted clock: tock 0..4 s set at construction "
-        "and/or reassigned before a run, and in 45% of the runs of >= 2 cycles assigned by a doer while the run is under way (smaller or larger; must not change the pace); per cycle work shorter or longer than the tock (lateness), per sleep an overshoot "
+        "and/or reassigned before a run, and in 45% of the runs of >= 2 cycles assigned by a doer while the run is under way (smaller or larger; must not change the pace), and in 40% of the runs of >= 3 cycles a doer calls doist.extend()/remove() with work time already spent in the cycle; per cycle work shorter or longer than the tock (lateness), per sleep an overshoot "
         "(mostly 0, sometimes several tocks) or an early return, per clock read forward progress and/or a backward jump (small, or hours), clock "
         "steps between construction and run and between runs; a dyadic stream (all float arithmetic exact, oracle with zero "
         "tolerance) and a non-dyadic stream (0.1, 1/3, uniform randoms; bit-exact correspondence, oracle tolerance a few ulp of the clock magnitude per operation); "
@@ -173,31 +176,60 @@ def _run_ado(case):
             if r["tock"] is not None:
                 doist.tock = r["tock"]
             tock = doist.tock
-            works = [tuple(map(float, w)) for w in r["works"]]
-            sets = list(r.get("sets") or [])
             rec = {"cycles": [], "log0": None}
-
-            class Pacer(doing.Doer):
-                def enter(self, **kwa):
-                    rec["log0"] = len(clk.log) + 1   # AsyncTimer(...) reads the loop clock once, .start() is the run start
-                    self.count = 0
-
-                def recur(self, tyme):
-                    rec["cycles"].append({"now": clk.now, "mono": clk.mono, "stop": _ado_frame_timer()._stop,
-                                          "nlog": len(clk.log), "nsleep": len(clk.sleeps)})
-                    clk.run_sleeps = 0
-                    p, j = works[self.count]
-                    clk.advance(p, j)
-                    if self.count < len(sets) and sets[self.count] is not None:
-                        doist.tock = sets[self.count]     # a doer changes the scheduler's tock while the run is under way
-                    self.count += 1
-                    return self.count >= len(works)
-
+            # AsyncTimer(...) reads the loop clock once, .start() is the run start: offset 1
+            Pacer = _make_pacer(doing, clk, doist, r, rec, lambda: _ado_frame_timer()._stop, 1)
             asyncio.run(doist.ado(doers=[Pacer(tock=0.0)]))
             runs.append(_collect(clk, rec, tock))
         return {"runs": runs}
     finally:
         doing.asyncio, timing.asyncio = saved
+
+
+def _make_pacer(doing, clk, doist, r, rec, get_stop, log0_offset):
+    """The doer that observes a run and plays the scripted part of the doers: per cycle it records the clock,
+    true time and the timer's deadline, does the cycle's work (a clock step), then -- work time already spent in
+    the cycle -- performs the scripted doist.tock assignment and doist.extend()/doist.remove() call."""
+    works = [tuple(map(float, w)) for w in r["works"]]
+    sets = list(r.get("sets") or [])
+    ops = list(r.get("ops") or [])
+    alive = []
+
+    class Extra(doing.Doer):          # a doer added at runtime: does nothing to the clock, lives for two cycles
+        def enter(self, **kwa):
+            self.left = 2
+
+        def recur(self, tyme):
+            self.left -= 1
+            return self.left <= 0
+
+    class Pacer(doing.Doer):
+        def enter(self, **kwa):
+            rec["log0"] = len(clk.log) + log0_offset
+            self.count = 0
+
+        def recur(self, tyme):
+            k = self.count
+            rec["cycles"].append({"now": clk.now, "mono": clk.mono, "stop": get_stop(),
+                                  "nlog": len(clk.log), "nsleep": len(clk.sleeps), "ri": clk.ri, "oi": clk.oi})
+            clk.run_sleeps = 0
+            p, j = works[k]
+            clk.advance(p, j)
+            if k < len(sets) and sets[k] is not None:
+                doist.tock = sets[k]          # a doer changes the scheduler's tock while the run is under way
+            last = k + 1 >= len(works)
+            op = ops[k] if k < len(ops) else None
+            if op == "extend" and not last:
+                e = Extra(tock=0.0)
+                alive.append(e)
+                doist.extend([e])             # runtime extend, work time already spent in this cycle
+            elif op == "remove" or (last and alive):
+                doist.remove([e for e in alive if e in doist.doers])
+                del alive[:]
+            self.count += 1
+            return last
+
+    return Pacer
 
 
 def _collect(clk, rec, tock):
@@ -206,10 +238,10 @@ def _collect(clk, rec, tock):
     log0 = rec["log0"]
     out = {"tock": _hx(tock), "start": _hx(clk.log[log0]), "start_mono": _hx(clk.mlog[log0]),
            "cycles": [], "end": _hx(clk.now), "end_mono": _hx(clk.mono),
-           "readings": [_hx(x) for x in clk.log[log0:]]}
+           "readings": [_hx(x) for x in clk.log[log0:]], "ri_end": clk.ri, "oi_end": clk.oi}
     for c, e in zip(cyc, ends):
         out["cycles"].append({"now": _hx(c["now"]), "mono": _hx(c["mono"]), "stop": _hx(c["stop"]),
-                              "nlog": c["nlog"] - log0,
+                              "nlog": c["nlog"] - log0, "ri": c["ri"], "oi": c["oi"],
                               "sleeps": [[_hx(a), _hx(d)] for a, d in clk.sleeps[c["nsleep"]:e]]})
     return out
 
@@ -229,26 +261,8 @@ def _run_do(case):
             if r["tock"] is not None:
                 doist.tock = r["tock"]
             tock = doist.tock
-            works = [tuple(map(float, w)) for w in r["works"]]
-            sets = list(r.get("sets") or [])
             rec = {"cycles": [], "log0": None}
-
-            class Pacer(doing.Doer):
-                def enter(self, **kwa):
-                    rec["log0"] = len(clk.log)       # the next reading is the one the run starts from
-                    self.count = 0
-
-                def recur(self, tyme):
-                    rec["cycles"].append({"now": clk.now, "mono": clk.mono, "stop": doist.timer._stop,
-                                          "nlog": len(clk.log), "nsleep": len(clk.sleeps)})
-                    clk.run_sleeps = 0
-                    p, j = works[self.count]
-                    clk.advance(p, j)
-                    if self.count < len(sets) and sets[self.count] is not None:
-                        doist.tock = sets[self.count]     # a doer changes the scheduler's tock while the run is under way
-                    self.count += 1
-                    return self.count >= len(works)
-
+            Pacer = _make_pacer(doing, clk, doist, r, rec, lambda: doist.timer._stop, 0)   # the next reading starts the run
             doist.do(doers=[Pacer(tock=0.0)])
             runs.append(_collect(clk, rec, tock))
         return {"runs": runs}
@@ -311,15 +325,37 @@ def oracle(case, obs):
                     if abs(target - want) > tol:
                         return (f"run {ri}: cycle {k} slept from {float(_fr(a))} for {float(_fr(d))} s, aiming at "
                                 f"{float(target)} instead of start + {k + 1} tocks = {float(want)}")
+        # (D) on time: lateness is never carried over.  In a run whose clock only moves forward, cycle k+1 starts
+        # no later than max(its deadline start + (k+1) tocks, end of the work of cycle k) plus what the environment
+        # itself added while the scheduler waited (progress between clock reads, sleep overshoot): whenever the
+        # work fits in the tock and sleeps are exact the next cycle starts exactly on its deadline.
+        cyc = o["cycles"]
+        steps = [w for w in r["works"]] + case["reads"][(cyc[0]["ri"] if cyc else 0):o["ri_end"]]
+        if all(float(j) == 0 for _, j in steps) and all(b >= a for a, b in zip(readings, readings[1:])):
+            for k, c in enumerate(cyc):
+                nxt = cyc[k + 1] if k + 1 < n else {"now": o["end"], "ri": o["ri_end"], "oi": o["oi_end"], "nlog": len(readings)}
+                deadline = start + (k + 1) * tock
+                after_work = _fr(c["now"]) + Fraction(float(r["works"][k][0]))
+                prog = sum((Fraction(float(p)) for p, _ in case["reads"][c["ri"]:nxt["ri"]]), Fraction(0))
+                over = sum((Fraction(float(x)) for x in case["overs"][c["oi"]:nxt["oi"]] if not isinstance(x, list)), Fraction(0))
+                bound = max(deadline, after_work) + prog + over
+                got = _fr(nxt["now"])
+                if got > bound + unit * (k + 3 + nxt["nlog"]):
+                    what = f"cycle {k + 1}" if k + 1 < n else "return of do()"
+                    return (f"run {ri}: {what} began at {float(got)}, {float(got - bound)} s later than max(deadline "
+                            f"{float(deadline)}, end of work {float(after_work)}) + environment delay {float(prog + over)}: "
+                            f"lateness was carried into a later cycle")
     return None
 
 
 # --------------------------------------------------------------------------- cases
 
-def _run(works, pre=(0.0, 0.0), tock=None, sets=None):
+def _run(works, pre=(0.0, 0.0), tock=None, sets=None, ops=None):
     r = {"pre": list(pre), "tock": tock, "works": [list(w) for w in works]}
     if sets:
         r["sets"] = list(sets)
+    if ops:
+        r["ops"] = list(ops)
     return r
 
 
@@ -369,6 +405,14 @@ def directed():
         _case(10.0, -0.5, [_run([Z] * 3), _run([Z] * 3, tock=-1.0)]),
         # stalled clock (no work, no overshoot) and default tock
         _case(0.0, 0.03125, [_run([Z] * 8)]),
+        # a doer calls doist.extend()/remove() during the run, with work time already spent in the cycle: the running
+        # deadline must not be touched (steady clock, exact sleeps: every cycle starts exactly on its deadline)
+        _case(1000.0, 1.0, [_run([w(0.25)] * 8, ops=[None, "extend", None, "extend", "remove", None, "extend"])]),
+        _case(1000.0, 0.5, [_run([w(0.125), w(0.375), w(0.75), w(0.125), w(0.125), w(0.125)], ops=["extend", "extend", "extend", "remove"])],
+              overs=[0.0, 0.0625]),
+        _case(1000.0, 1.0, [_run([w(0.25)] * 5, ops=[None, "extend", "remove"]), _run([w(0.5)] * 4, pre=(3.0, 10.0), ops=["extend"])]),
+        _case(50.0, 1.0, [_run([w(0.25)] * 6, ops=[None, "extend", None, "remove", "extend"])], mode="ado"),
+        _case(0.1, 0.1, [_run([(0.03, 0.0)] * 8, ops=[None, None, "extend", None, "extend"])], exact=False),
         # a doer assigns doist.tock while the run is under way: smaller (the run must not speed up), larger, and
         # the next run starts with the assigned value
         _case(1000.0, 1.0, [_run([w(0.125)] * 8, sets=[None, None, 0.125])], overs=[0.0, 0.03125, 0.0, 0.03125]),
@@ -459,6 +503,11 @@ def _gen_case(rng, exact, ado=False):
             run["sets"] = sets
             last = [x for x in sets if x is not None]
             tock = abs(last[-1]) if last else tock
+        if n >= 3 and rng.random() < 0.4:
+            ops = [None] * n
+            for _ in range(rng.choice([1, 2, 3])):
+                ops[rng.randrange(0, n - 1)] = rng.choice(["extend", "extend", "remove"])
+            run["ops"] = ops
         runs.append(run)
     span = max(tock, 0.0625)
     # per-read script: mostly nothing happens between two reads
@@ -571,6 +620,8 @@ def shrink(case):
             yield dict(case, runs=runs[:i] + [dict(r, pre=[0.0, 0.0])] + runs[i + 1:])
         if r.get("sets"):
             yield dict(case, runs=runs[:i] + [{k: v for k, v in r.items() if k != "sets"}] + runs[i + 1:])
+        if r.get("ops"):
+            yield dict(case, runs=runs[:i] + [{k: v for k, v in r.items() if k != "ops"}] + runs[i + 1:])
     if case["reads"]:
         yield dict(case, reads=[])
         for k, x in enumerate(case["reads"]):
@@ -587,7 +638,7 @@ def shrink(case):
 
 def distribution(cases, obs):
     d = {"cases": len(cases), "ado_cases": sum(1 for c in cases if c.get("mode") == "ado"), "exact": 0, "cycles": 0, "cycles_no_wait": 0, "cycles_multi_sleep": 0, "runs_with_retro_reading": 0,
-         "runs": 0, "runs_tock_set_by_doer_midrun": 0, "runs_tock_reassigned": 0, "runs_pre_step_back": 0, "sleep_calls": 0}
+         "runs": 0, "runs_with_runtime_extend_remove": 0, "runs_tock_set_by_doer_midrun": 0, "runs_tock_reassigned": 0, "runs_pre_step_back": 0, "sleep_calls": 0}
     for c, o in zip(cases, obs):
         if not isinstance(o, dict) or "runs" not in o:
             continue
@@ -595,6 +646,7 @@ def distribution(cases, obs):
         for r, ro in zip(c["runs"], o["runs"]):
             d["runs"] += 1
             d["runs_tock_reassigned"] += r["tock"] is not None
+            d["runs_with_runtime_extend_remove"] += any(x is not None for x in (r.get("ops") or []))
             d["runs_tock_set_by_doer_midrun"] += any(x is not None for x in (r.get("sets") or []))
             d["runs_pre_step_back"] += r["pre"][1] > 0
             rd = [float.fromhex(x) for x in ro["readings"]]
